@@ -134,6 +134,8 @@ func c04(c *Ctx) {
 	rd.remainingSign("C04.top-bit")
 	rd.sticky("C04.sticky")
 	rd.close1002("C04.close-1002")
+	// the value whose top bit is tested is the full 64-bit length the peer sent
+	rd.parserRules("C04.top-bit", "", "", "")
 	r.Rule("C04.error-reaches-reader", "the error of the violating frame reaches whoever is reading the current message: every Read method layered over the message reader (decompression source, JoinMessages, ...) passes inner errors other than io.EOF on instead of ending the message cleanly (same rule as C05.reader-wrappers)")
 	if c.readerWrappers("C04.error-reaches-reader") < 4 {
 		r.Fail("C04.error-reaches-reader", "package", "floor", c.fn("(*joinReader).Read").Pos(), "fewer than the 4 known reader wrappers were analysed")
